@@ -1165,8 +1165,9 @@ _handle_features_sasl(xmpp_conn_t *conn, xmpp_stanza_t *stanza, void *userdata)
        XMPP style connection or we <resume/> the previous session */
 
     /* Check whether we can <resume/> the previous session */
-    if (!conn->sm_disable && conn->sm_state->can_resume &&
-        conn->sm_state->previd && conn->sm_state->bound_jid) {
+    if (!conn->sm_disable && conn->sm_state->sm_support &&
+        conn->sm_state->can_resume && conn->sm_state->previd &&
+        conn->sm_state->bound_jid) {
         resume = xmpp_stanza_new(conn->ctx);
         if (!resume) {
             disconnect_mem_error(conn);
